@@ -93,6 +93,14 @@ func checkTs(who, leg string, body []byte, pub *published) *pbt.Violation {
 	if err != nil {
 		return pbt.V(leg+"/demux-error", "%s: %v", who, err)
 	}
+	// syntax errors that make a conforming demuxer cut the elementary stream differently (everything else about the
+	// multiplex syntax is C09's business)
+	for _, pr := range res.Problems {
+		switch pr.Kind {
+		case "pes-length-mismatch", "pes-no-start-code", "pes-truncated", "pes-header-overflow", "pes-pts-dts-flags", "af-length", "af-overflow":
+			return pbt.V(leg+"/ts-syntax/"+pr.Kind, "%s: %s", who, pr.String())
+		}
+	}
 	pmt := res.LastPMT()
 	if pmt == nil {
 		return pbt.V(leg+"/no-pmt", "%s: no program map table in %d packets", who, len(res.Packets))
